@@ -18,9 +18,12 @@ EXPLANATION = (
     "Y7: wrap_submodule and wrap write what wrap_file returned on every path to a normal exit (must-pass-through over the "
     "statement structure), to the file named after the initialiser - the main file declares and calls every initialiser "
     "unconditionally, so a part that is skipped leaves an undefined reference. "
+    "Y8: the command lines in cmake/PybindWrap.cmake and cmake/MatlabWrap.cmake pass only options the scripts declare, with a "
+    "value exactly where the script expects one, and every required option; the file names the build expects (NAME_WLE + .cpp, "
+    "<module>_wrapper.cpp in the --out directory) are the names the library writes. "
     "Linking and importing the combined module is not decided.")
 ASSUMPTIONS = ["argparse semantics: nargs='*' without default yields None when the option is absent",
-               "cmake/PybindWrap.cmake names a submodule's output <stem>.cpp (NAME_WLE), matching wrap_submodule"]
+               "CMake semantics: NAME_WLE is the file name without its last extension (= pathlib's stem)"]
 
 
 def run(ctx, rep):
@@ -31,6 +34,7 @@ def run(ctx, rep):
     rep.run(RC.rule_sibling_scripts, ctx, rep, "Y4")
     rep.run(RC.rule_namespace_normal_form, ctx, rep, "Y6")
     rep.run(RC.rule_every_part_is_written, ctx, rep, "Y7")
+    rep.run(RC.rule_build_files_agree, ctx, rep, "Y8")
     # Y5: the entry points leave the lists they are given (sources, ignore list, namespaces) as they were
     rep.run(RA.rule_mutate_only_fresh, ctx, rep, "Y5", "gtwrap/pybind_wrapper", {}, min_sites=3)
     rep.run(RF.rule_locals_defined, ctx, rep, "U1", packages=("scripts/", "gtwrap/pybind_wrapper.py", "gtwrap/matlab_wrapper"), min_functions=3)
